@@ -237,7 +237,14 @@ def run(ctx, out, replay=None):
                 "cuts first: the piece must be cut); the transposed layout (the sliver line is an x line, tried before the y cut: "
                 "it stays); two lines closer than 1% of the other side in the middle of a cell (the second is a sliver of the "
                 "piece only); the same with a cell in which the line is a due cut anyway; neighbours optionally fixed; gridded "
-                "again, after a refine, after a flag set in place; (d) large decimal results (1000+ cells, see C02; one in the "
+                "again, after a refine, after a flag set in place; (e) LAYOUTS THAT DO NOT TILE THEIR BOUNDING BOX, systematically over "
+                "14 kinds (alloc_variants.NONTILING_KINDS): rows / columns of EQUAL bricks shifted against each other (running "
+                "bond, stairs, by half / a quarter / any multiple of 1/4 of a brick, by just under and just over 1% of the "
+                "brick's other side), the same with gaps inside and between the rows, rows of different brick sizes, L-shaped "
+                "and stepped unions, pinwheels around a hole, and as controls regular grids with holes and L-shaped unions of "
+                "aligned equal cells; half as chains on fresh objects (griddify / uniform / refine, alone and one after the "
+                "other, must_be_refined probed around each), half as histories (gridded twice, after refine / uniform / copy, "
+                "after flags set in place; YAML / list / file input forms); (d) large decimal results (1000+ cells, see C02; one in the "
                 "quick tier); non-trivial = at least two cells; distinct by hash")
     cases = []
     if replay and "case" in replay:
